@@ -101,9 +101,9 @@ type c29Sub struct {
 }
 
 type c29Stats struct {
-	appendCalls, coalescedCalls, conflicts, retryAttempts, lookups, lookupHits       atomic.Int64
-	replays, ownSuccesses, diffPayloadRefused, outOfOrderDone, busy, terminalAligned atomic.Int64
-	crossBatchCoalesced, keylessStoredTwice, cancelledFiltered, fencedHits           atomic.Int64
+	appendCalls, conflicts, retryAttempts, lookups, lookupHits atomic.Int64
+	replays, ownSuccesses, outOfOrderDone, busy, terminalAligned atomic.Int64
+	crossBatchCoalesced, keylessStoredTwice, cancelledFiltered atomic.Int64
 	failedItems, dupPassedToPort                                                     atomic.Int64
 }
 
@@ -127,7 +127,6 @@ type c29Inst struct {
 	outstanding []appendCompletedEvent
 	outLabel    []string
 	nextID      uint64
-	nextDone    uint64 // append sequence expected next if completions came in order
 
 	kctx      context.Context
 	kcancel   context.CancelFunc
@@ -358,9 +357,15 @@ func (in *c29Inst) Apply(evl string, env *mc.Env) (string, error) {
 			return "adv:no-append", nil
 		}
 		snapshot := eff
-		calls := in.cfg.stats.appendCalls.Load()
-		comp := snapshot.run(w.ports.runtimeCtx, w.ports.append)
-		_ = calls
+		// like channelWriter.runAppend: a panic inside the effect becomes an error completion
+		comp := func() (completion appendCompletedEvent) {
+			defer func() {
+				if recovered := recover(); recovered != nil {
+					completion = appendPanicCompletion(snapshot, recovered)
+				}
+			}()
+			return snapshot.run(w.ports.runtimeCtx, w.ports.append)
+		}()
 		in.outstanding = append(in.outstanding, comp)
 		in.outLabel = append(in.outLabel, fmt.Sprintf("s%d", comp.seq))
 		var classes []string
@@ -566,11 +571,13 @@ func TestVerifC29Core(t *testing.T) {
 	// (axa), a malformed item in front of a valid one (za), a cancellable item (kb), other sender
 	// with the same number (ca)
 	base := []string{"a", "ba", "axa", "aA", "A", "za"}
-	wide := []string{"a", "ba", "axa", "aAa", "A", "zab", "ca", "Fa", "kb", "xx"}
+	wide := []string{"a", "ba", "axa", "aAa", "A", "zab", "Fa"}
 	if r.Thorough() {
-		add("writer-inflight2", wide, 3, 2, 0, 8, 2)
-		add("writer-inflight1", wide, 3, 1, 0, 7, 2)
-		add("writer-inflight2-watermark3", base, 3, 2, 3, 7, 2)
+		add("writer-inflight2", wide, 3, 2, 0, 8, 1)
+		add("writer-inflight2-dev2", []string{"a", "ba", "aA", "axa"}, 3, 2, 0, 7, 2)
+		add("writer-inflight1", []string{"a", "ba", "aAa", "Fa", "kb", "ca", "xx"}, 3, 1, 0, 7, 1)
+		add("writer-inflight1-dev2", []string{"a", "bA", "Fa", "xa"}, 3, 1, 0, 6, 2)
+		add("writer-inflight2-watermark3", base, 3, 2, 3, 7, 1)
 	} else {
 		add("writer-inflight2", base, 3, 2, 0, 6, 1)
 		add("writer-inflight1", []string{"a", "ba", "aAa", "Fa", "kb"}, 3, 1, 0, 6, 1)
@@ -589,7 +596,7 @@ func TestVerifC29Core(t *testing.T) {
 			Note: "events: sub:<batch> (enqueue into the writer inbox), adv (one advance pass: take inbox, prepare, admit, cut and run one append effect), done:<i> (deliver the i-th outstanding append completion), cancel; no state merging",
 		})
 		c := cfg.stats
-		for _, p := range []struct{ dst, src *atomic.Int64 }{{&total.appendCalls, &c.appendCalls}, {&total.coalescedCalls, &c.coalescedCalls}, {&total.conflicts, &c.conflicts},
+		for _, p := range []struct{ dst, src *atomic.Int64 }{{&total.appendCalls, &c.appendCalls}, {&total.conflicts, &c.conflicts},
 			{&total.retryAttempts, &c.retryAttempts}, {&total.lookups, &c.lookups}, {&total.lookupHits, &c.lookupHits}, {&total.replays, &c.replays}, {&total.ownSuccesses, &c.ownSuccesses},
 			{&total.outOfOrderDone, &c.outOfOrderDone}, {&total.busy, &c.busy}, {&total.terminalAligned, &c.terminalAligned}, {&total.crossBatchCoalesced, &c.crossBatchCoalesced},
 			{&total.keylessStoredTwice, &c.keylessStoredTwice}, {&total.cancelledFiltered, &c.cancelledFiltered}, {&total.failedItems, &c.failedItems}, {&total.dupPassedToPort, &c.dupPassedToPort}} {
